@@ -225,9 +225,14 @@ def op_bitmap_csum(fs, d, r, keep_csum, which=None):
     """the stored checksum of a bitmap is wrong while the bitmap and the descriptor's own checksum are right"""
     if not fs.has_csum:
         return "not applicable"
-    which = which or r.choice(["ib", "bb"])
+    which = which or r.choice(["ib", "bb", "bb_iuninit", "ib_buninit"])
+    other = which.endswith("uninit")
+    which = which[:2]
     flag = BG_INODE_UNINIT if which == "ib" else BG_BLOCK_UNINIT
     gs = [g for g in range(fs.groups_count) if not fs.groups[g]["flags"] & flag]
+    if other:
+        # prefer a group whose other bitmap is still marked uninitialised
+        gs = [g for g in gs if fs.groups[g]["flags"] & (BG_INODE_UNINIT | BG_BLOCK_UNINIT)] or gs
     if not gs:
         return "not applicable"
     g = r.choice(gs)
@@ -809,6 +814,8 @@ PAIRS = [
     [(op_bitmap_csum, "bb"), (op_bitmap_csum, "ib")],
     [(op_xattr_block, "refcount0")],
     [(op_xattr_block, "refcount_hi")],
+    [(op_bitmap_csum, "bb_iuninit")],
+    [(op_bitmap_csum, "ib_buninit")],
 ]
 
 DIRECTED = [(op_append_block, "end"), (op_append_block, "end+1"), (op_block_pointer, "end"), (op_block_pointer, "end+1"), (op_extent_edge, "end"), (op_extent_edge, "end+1"),
